@@ -266,6 +266,27 @@ Example C01_ambiguous_shape_is_ambiguous :
   ambiguous amb /\ read_tx (tx_bytes false amb) <> POk (mkParsed amb false true) (lenN (tx_bytes false amb)) [].
 Proof. split; [repeat split|]; vm_compute; congruence. Qed.
 
+(** Block-list parsing with the destination explicit (model/TxsInto.v, proofs/TxsIntoProofs.v): Txs.ReadFrom writes
+    into a slice the caller supplies and may have used before.  What it holds after a successful read, the bytes
+    consumed and the remainder are those of [read_txs] - the same for EVERY previous content of the destination. *)
+From GoBT Require model.TxsInto proofs.TxsIntoProofs.
+Theorem C01_txs_destination_irrelevant : forall d1 bs l n rest,
+  TxsInto.read_txs_into d1 bs = TxsInto.IOk l n rest ->
+  (forall d2, TxsInto.read_txs_into d2 bs = TxsInto.IOk l n rest) /\ exists m, read_txs bs = POk (l, m) n rest.
+Proof. exact TxsIntoProofs.read_txs_into_destination_irrelevant. Qed.
+Print Assumptions C01_txs_destination_irrelevant.
+Theorem C01_txs_into_is_read_txs : forall bs l m n rest,
+  read_txs bs = POk (l, m) n rest -> forall dst, TxsInto.read_txs_into dst bs = TxsInto.IOk l n rest.
+Proof. exact TxsIntoProofs.read_txs_into_of_read_txs. Qed.
+Print Assumptions C01_txs_into_is_read_txs.
+Theorem C01_txs_into_total : forall dst bs, TxsInto.read_txs_into dst bs <> TxsInto.IFuel.
+Proof. exact TxsIntoProofs.read_txs_into_never_out_of_fuel. Qed.
+Print Assumptions C01_txs_into_total.
+(** non-vacuity: the empty list read into a destination that holds two transactions leaves it empty *)
+Example C01_empty_list_empties_the_destination :
+  TxsInto.read_txs_into (TxsInto.dst_of 2) [x00; xaa] = TxsInto.IOk [] 1 [xaa].
+Proof. vm_compute. reflexivity. Qed.
+
 (** State inventory (tie, translator part): every Go struct the model of this property represents has, in the
     source as it is NOW (gen/Structs.v, regenerated on every run), exactly the fields - names, types, order - the
     model was written against (model/StateInventory.v).  New state in these objects (a memoised digest, a cached
